@@ -101,7 +101,9 @@ def case(draw):
     return {"eq": eq, "fd": fd, "td": td, "mid": mid, "fu": draw(st.sampled_from(POOL[fd])), "tu": draw(st.sampled_from(POOL[td])),
             "mu_": draw(st.sampled_from(POOL[mid])), "vals": vals, "expo": expo, "mu": draw(st.sampled_from([None, 0.6, 1.0, 1.4, 2.3, 0.25])),
             "gamma": draw(st.sampled_from([None, 5 / 3, 1.4, 1.0, 7 / 5, 3.0])), "scalar": n == 1 and draw(st.booleans()),
-            "int": draw(st.integers(0, 5)) == 0, "f32": draw(st.integers(0, 4)) == 0, "array_kw": draw(st.integers(0, 5)) == 0}
+            "int": draw(st.integers(0, 5)) == 0, "f32": draw(st.integers(0, 4)) == 0, "array_kw": draw(st.integers(0, 5)) == 0,
+            "idt": draw(st.sampled_from(["int64", "int64", "int32", "int16", "uint16", "uint32", "uint8", "int8", "uint64"])),
+            "codereg": draw(st.integers(0, 3)) == 0}
 
 
 def _kw(c):
@@ -133,7 +135,25 @@ def judge(c, part):
     gamma = kw.get("gamma", 5.0 / 3.0)
     part.ev()
     fu, tu = c["fu"], c["tu"]
-    sf, stt = float(Unit(fu).base_value), float(Unit(tu).base_value)
+    reg = None
+    if c.get("codereg"):
+        # the quantity lives in a private registry; its target is one of that registry's own symbols, spelled as a string
+        import unyt.dimensions as D_
+        from unyt.unit_registry import UnitRegistry
+
+        reg = UnitRegistry()
+        for nm_, sc_, dm_ in (("code_length", 3.0857e19, D_.length), ("code_mass", 1.989e40, D_.mass), ("code_time", 3.1557e13, D_.time), ("code_temperature", 2.5, D_.temperature),
+                              ("code_energy", 7.0e42, D_.energy), ("code_velocity", 9.78e5, D_.velocity), ("code_density", 6.8e-20, D_.density), ("code_flux", 3.0, D_.flux),
+                              ("code_rate", 4.0e-14, D_.rate), ("code_ndens", 5.0e3, D_.number_density)):
+            reg.add(nm_, sc_, dm_)
+        code = {"length": "code_length", "mass": "code_mass", "temperature": "code_temperature", "energy": "code_energy", "velocity": "code_velocity", "density": "code_density",
+                "flux": "code_flux", "rate": "code_rate", "number_density": "code_ndens", "spatial_frequency": "1/code_length"}
+        if td in code:
+            tu = code[td]
+        if fd in code and len(c["vals"]) > 1:
+            fu = code[fd]
+        part.count("quantity in a code-unit registry")
+    sf, stt = float(Unit(fu, registry=reg).base_value), float(Unit(tu, registry=reg).base_value)
     if eq == "lorentz":
         if fd == "velocity":
             vals = [b * consts()["c"] / sf for b in c["vals"]]
@@ -143,13 +163,15 @@ def judge(c, part):
         vals = [v * 10.0 ** c["expo"] for v in c["vals"]]
     if c["int"] and eq != "lorentz":
         vals = [float(max(1, int(round(v)))) for v in vals]
-        arr = np.array(vals, dtype="int64")
+        idt = np.dtype(c.get("idt", "int64"))
+        vals = [float(min(v, np.iinfo(idt).max // 2)) for v in vals]
+        arr = np.array(vals, dtype=idt)
     elif c.get("f32") and eq != "lorentz":
         arr = np.array(vals, dtype="float32")  # some formula steps (x*x) stay in single precision: tolerance below
         vals = [float(v) for v in arr]
     else:
         arr = np.array(vals, dtype="float64")
-    mk = lambda: (unyt_quantity(arr[0], fu) if c["scalar"] else unyt_array(arr.copy(), fu))  # noqa: E731
+    mk = lambda: (unyt_quantity(arr[0], fu, registry=reg) if c["scalar"] else unyt_array(arr.copy(), fu, registry=reg))  # noqa: E731
     x = mk()
     xsi = np.asarray(arr, dtype=float) * sf
     want_si = formula(eq, fd, td, xsi, mu, gamma)
@@ -191,7 +213,7 @@ def judge(c, part):
         if not _close(got_si, want_si, rtol):
             bad(f"formula:{rn}", got_SI=got_si.tolist() if np.ndim(got_si) else float(got_si), want_SI=np.asarray(want_si).tolist())
         if rn != "to_value":
-            if r.units != Unit(tu) or str(r.units) != str(Unit(tu)):
+            if r.units != Unit(tu, registry=reg) or str(r.units) != str(Unit(tu, registry=reg)):
                 bad(f"result-unit:{rn}", got=r.units)
             if np.asarray(r).dtype.kind not in "fc":
                 bad(f"non-float-result:{rn}", dtype=np.asarray(r).dtype)
@@ -203,7 +225,7 @@ def judge(c, part):
             bad(f"entry-points-disagree:{rn}", got=r, ref=y)
     # in-place twins
     for rn, rf in {"convert_to_equivalent": lambda q: q.convert_to_equivalent(tu, eq, **kw), "convert_to_units": lambda q: q.convert_to_units(tu, equivalence=eq, **kw)}.items():
-        z = unyt_array(np.array(arr, dtype="float64"), fu) if not c["scalar"] else unyt_quantity(float(arr[0]), fu)
+        z = unyt_array(np.array(arr, dtype="float64"), fu, registry=reg) if not c["scalar"] else unyt_quantity(float(arr[0]), fu, registry=reg)
         try:
             rf(z)
         except Exception as e:
@@ -260,7 +282,7 @@ def judge(c, part):
             bad(f"uncovered-request-mutated-input:{rn}", now=q)
     # a quantity whose dimension is not a member at all
     try:
-        unyt_quantity(1.0, OUTSIDE[eq]).to_equivalent(tu, eq, **kw)
+        unyt_quantity(1.0, OUTSIDE[eq], registry=reg).to_equivalent(tu, eq, **kw)
         bad("non-member-input-not-refused")
     except InvalidUnitEquivalence:
         pass
